@@ -47,7 +47,7 @@ func (c03) Info(tier string) fw.Info {
 		},
 		Exhaustive:   false,
 		CaseTimeoutS: 60,
-		BatchSize:    40,
+		BatchSize:    24,
 	}
 }
 
@@ -234,6 +234,11 @@ func (c03) Run(c fw.Case) (res fw.Result) {
 		}
 		return finish()
 	}
+	if out.Errors != 0 && p.Only != "" {
+		// the sibling main case reports the rejected base program
+		cover["skipped-base-rejected"] = true
+		return finish()
+	}
 	if out.Errors != 0 {
 		class, text := firstError(out)
 		subs = append(subs, fw.SubViolation{
@@ -286,12 +291,10 @@ func (c03) Run(c fw.Case) (res fw.Result) {
 	}
 
 	muts, dropped := mutate.Mutants(parsed)
-	if !p.SkipTags || p.Only == "" {
+	if p.Only == "" {
 		for _, r := range mutate.SortedKeys(dropped) {
-			if p.Only == "" {
-				res.Obs["dropped-unsure"] += int64(dropped[r])
-				res.Obs["dropped-unsure:"+r] += int64(dropped[r])
-			}
+			res.Obs["dropped-unsure"] += int64(dropped[r])
+			res.Obs["dropped-unsure:"+r] += int64(dropped[r])
 		}
 	}
 	ran := 0
